@@ -21,6 +21,7 @@ import (
 	"encoding/binary"
 	"io"
 	"os"
+	"strings"
 	"time"
 
 	dherrors "github.com/dolthub/dolt/go/libraries/utils/errors"
@@ -165,6 +166,8 @@ var verif_ghost struct {
 	tMatchIdx uint32
 
 	// blobstore-backed manifest (conditional write)
+	crcChecked bool // NewCompressedChunk accepted the bytes (its CRC matched)
+
 	bPutOK    bool      // CheckAndPutManifest returned nil
 	bReadLock hash.Hash // lock of the contents most recently read from the blobstore
 }
@@ -210,3 +213,11 @@ func verif_x_tableIndex_indexEntry(ti tableIndex, idx uint32, a *hash.Hash) (ent
 func verif_x_bs_CheckAndPutManifest(bs blobstore.Blobstore, ctx context.Context, expectedVersion string, contents []byte) (version string, err error) {
 	return bs.CheckAndPutManifest(ctx, expectedVersion, contents)
 }
+
+func verif_x_strings_Split(s, sep string) (parts []string) { return strings.Split(s, sep) }
+
+func verif_x_ReadSeeker_Seek(rd io.ReadSeeker, offset int64, whence int) (n int64, err error) {
+	return rd.Seek(offset, whence)
+}
+
+func verif_x_hash_MaybeParse(s string) (h hash.Hash, ok bool) { return hash.MaybeParse(s) }
